@@ -51,6 +51,14 @@ func internalResultToTraversal(p traversal, r regoPathResultInternal) traversal 
 	}
 }
 
+// copyTraversal returns a traversal whose slices do not share a backing array with the original
+func copyTraversal(t traversal) traversal {
+	t.rego = append(make([]string, 0, len(t.rego)+4), t.rego...)
+	t.pathVariables = append(make([]string, 0, len(t.pathVariables)+2), t.pathVariables...)
+	t.paths = append(make([]string, 0, len(t.paths)+1), t.paths...)
+	return t
+}
+
 // GeneratePropertySet Traversed the path, starting at the provided variable and returns a set of reached values
 func GeneratePropertySet(path path.PropertyPath, variable string, iriExpander *misc.IriExpander) RegoPathResult {
 	return generateResult(path, variable, false, iriExpander, aggregateResultsIntoSet)
@@ -210,6 +218,8 @@ func traverseProperty(property path.Property, t traversal, fetchNodes bool, iriE
 // Traverses the leaf components of the path expression, always a property.
 // TODO: We don't take into transitive paths yet.
 func traverseRegularProperty(property path.Property, t traversal, fetchNodes bool, iriExpander *misc.IriExpander) []regoPathResultInternal {
+	// the same traversal is handed to every alternative of an OR path: never append in place to its slices
+	t = copyTraversal(t)
 
 	propertyIri, err := property.Expanded(iriExpander)
 
@@ -258,6 +268,7 @@ func traverseRegularProperty(property path.Property, t traversal, fetchNodes boo
 }
 
 func traverseCustomProperty(property path.Property, t traversal, fetchNodes bool, iriExpander *misc.IriExpander) []regoPathResultInternal {
+	t = copyTraversal(t)
 	customPropertyName, err := property.CustomName(iriExpander)
 	if err != nil {
 		panic(err)
